@@ -21,7 +21,7 @@ class Obligation:
         self.bound = d.get("bound", "")
         self.domain = d.get("domain", "")
         self.backend = d.get("backend", "kani")
-        self.timeout = int(d.get("timeout", "900"))
+        self.timeout = int(d.get("timeout", "300"))
         self.weight = int(d.get("w", "1"))
         self.unwindset = d.get("unwindset", "")
         self.extra = d.get("extra", "")
